@@ -217,7 +217,7 @@ def run_manager(sysm, ops, scale, out, align=None):
                 except Exception:          # OSError from the device, or the pre-flight refusal this life cycle is about
                     pass
             try:
-                with contextlib.redirect_stdout(io.StringIO()):
+                with contextlib.redirect_stdout(io.StringIO()), common.caller_state(len(ev) + len(sysm.mols)):
                     man.extrapolate_system(out)
                 outcome = 'ok'
             except SystemError:
